@@ -42,7 +42,7 @@ def run(ctx):
     if m.behaviours == 0:
         raise MachineryFault("LintCmd.tla emitted no cell")
     if not quick:
-        dead = [a for a in m.coverage_zero if a in ("ParseMain", "Lint", "Count", "CountDone", "RunReturn", "Report")]
+        dead = wlint.dead_actions(m.out_path, ("ParseMain", "Lint", "Count", "CountDone", "RunReturn", "Report"))
         if dead:
             raise MachineryFault("LintCmd.tla actions never taken: %s" % dead)
     ctx.exhaustive = True
